@@ -136,6 +136,15 @@ CLAIMED['C12'] = dict(
          'selected rule is reachable below; parse() returns the root iff the plain parse succeeded; transformers as documented. Together with C08 this excludes leftover nodes of backtracked or aborted branches.',
     ref='5/C12')
 
+CLAIMED['C10'] = dict(
+    technique='abstract interpretation of the instantiated decoder/predicate bodies over exact sets (separable sums of per-byte tables; decision diagrams over availability and 8 bytes), compared with reference partitions from the Unicode tables',
+    text='For every Peek class (char, utf8, utf16 be/le, utf32 be/le, uint8/16/32/64 be/le and their mask variants) the partition of ALL inputs (availability 0..8+, every byte value) derived from the body '
+         'equals the reference (Unicode tables 3-5/3-6/3-7; byte order; mask): reported size, decoded value, and no unit read without being known available (so every truncation is "no match"). '
+         'test_one of all ASCII/ABNF classes and of one/not_one/range/not_range/ranges instantiations equals the documented 256-entry tables; ichar_equal<C> for all 256 C folds exactly the ASCII letters; '
+         'match() of one/range/ranges/any over every Peek consumes exactly the reported size iff the value is in the set. 64-bit rules are covered for all values, not samples. '
+         'Not covered: ICU rules; big-endian hosts (the other preprocessor branch of endian_gcc.hpp).',
+    ref='5/C10')
+
 NOT_YET = 'check not built yet in this round (see DESIGN.md section 10 for the order of construction); no claim is made'
 
 NA_REASONS = {}
